@@ -154,6 +154,19 @@ def _std_transfer(I, fr, t, c, pth):
                 return True
         return False
 
+    # ------------------------------------------------------------------ mem::replace / mem::swap
+    if d.startswith('std::mem::replace') and len(args) == 2:
+        old_ = fr.deref_operand(args[0])
+        if fr.store_through(args[0], fr.operand(args[1])):
+            fr.storev(dest, old_)
+            return True
+        return False
+    if d.startswith('std::mem::swap') and len(args) == 2:
+        a_, b_ = fr.deref_operand(args[0]), fr.deref_operand(args[1])
+        if fr.store_through(args[0], b_) and fr.store_through(args[1], a_):
+            fr.storev(dest, Agg([]))
+            return True
+        return False
     # ------------------------------------------------------------------ one-element / empty / repeated iterators
     if d.startswith('std::iter::once') and len(args) == 1 and not d.startswith('std::iter::once_with'):
         fr.storev(dest, SliceIt([fr.operand(args[0])], 0))
@@ -273,6 +286,26 @@ def _std_transfer(I, fr, t, c, pth):
             inner = fr.operand(args[0]) if name != 'by_ref' else fr.deref_operand(args[0])
             if is_iter(inner) and name != 'by_ref':
                 fr.storev(dest, GenIt('enumerate', inner, 0) if name == 'enumerate' else inner)
+                return True
+            return False
+        if name == 'scan' and len(args) == 3:
+            # evaluated eagerly: the state lives in a place of its own and the closure gets `&mut state`
+            inner = fr.operand(args[0])
+            cl = I._closure_value(fr, args[2])
+            if is_iter(inner) and cl is not None:
+                I.fresh += 1
+                key = ('scan-state', I.fresh)
+                fr.store[key] = fr.operand(args[1])
+                out = []
+                for item in drain(I, inner, where):
+                    r = I._call_closure_rw(fr, cl[0], cl[1], [Ref(key, []), item], where)
+                    if not (isinstance(r, Opt) and r.tag in ('some', 'none')):
+                        raise NotDerivable('scan closure result not decided', where)
+                    if r.tag == 'none':
+                        break
+                    out.append(r.payload)
+                fr.store.pop(key, None)
+                fr.storev(dest, SliceIt(out, 0))
                 return True
             return False
         if name in ('zip', 'chain') and len(args) == 2:
@@ -823,6 +856,19 @@ def result_transfer(I, fr, t, c, pth):
         tag = {'some': 'none', 'none': 'some', None: None}[o.tag]
         pl = Either(side(o, 1), e) if tag is None else (side(o, 1) if tag == 'none' else e)
         fr.storev(dest, Opt(tag, pl, neg_label(o.label)))
+        return True
+    if is_opt_m and m in ('copied', 'cloned') and len(args) == 1:
+        def deref_(v):
+            for _ in range(4):
+                if isinstance(v, Ref):
+                    v = I._ref_value(fr, v)
+            return v
+        pl_ = o.payload
+        if isinstance(pl_, Either):
+            pl_ = Either(pl_.pick(0), deref_(pl_.pick(1)))
+        else:
+            pl_ = deref_(pl_)
+        fr.storev(dest, Opt(o.tag, pl_, o.label))
         return True
     if is_opt_m and o.tag is not None and m in ('map_or', 'map_or_else', 'unwrap_or', 'unwrap_or_else', 'filter', 'and_then', 'or', 'or_else', 'unwrap_or_default'):
         some = o.tag == 'some'
